@@ -36,6 +36,8 @@ inductive Xfer where
   | upInto (idx sub : Nat) (sizes : List Nat)
 
 def parseOdType (s : String) : Option (Option (Option Nat)) :=
+  -- `a<T>` / `r<T>`: declared through an array's template member / a record member of type T
+  let s := if s.startsWith "a" ∨ s.startsWith "r" then (s.drop 1).toString else s
   if s = "x" then some none else if s = "n" then some (some none) else s.toNat?.map (fun t => some (some t))
 
 def parseXfer (s : String) : Option Xfer :=
